@@ -276,3 +276,38 @@ contract(
     native=False,
     budget=5000,
 )
+
+
+# ====================================================================================================== get_molecule
+# The records handed on are exactly the list the reader returned (same object: nothing filtered, added or re-ordered in
+# between); the reader is chosen by the file suffix alone; an unreadable / empty input is an error, not an empty molecule.
+class GFile:
+    def __init__(self):
+        self.closed = 0
+
+    def close(self):
+        self.closed = self.closed + 1
+
+
+for _path, _cif in (("1abc.pdb", False), ("dir/x.CIF", True), ("y.cif", True), ("noext", False), ("a.pdb.cif", True),
+                    ("b.cif.pdb", False), ("z.ent", False)):
+    for _n, _lst in (("some", Items(Obj("Rec"))), ("none", Items())):
+        contract(
+            "pdb2pqr.io:get_molecule", ["C07", "C10", "C12"],
+            params={"input_path": Const(_path)},
+            requires=[],
+            ensures=[
+                f"result[1] == {_cif}",
+                f"len(calls_of('read_cif')) == {int(_cif)} and len(calls_of('read_pdb')) == {int(not _cif)}",
+                f"result[0] is calls_of('{'read_cif' if _cif else 'read_pdb'}')[0].ret[0]",
+                f"calls_of('{'read_cif' if _cif else 'read_pdb'}')[0].args['{'cif_file' if _cif else 'file_'}'] is calls_of('get_pdb_file')[0].ret",
+                "calls_of('get_pdb_file')[0].ret.closed == 1",
+                # a normal return means there was something to hand on
+                "len(result[0]) > 0 or len(calls()[1].ret[1]) > 0",
+            ],
+            raises={"RuntimeError": "True"},
+            trace={"pdb2pqr.io:get_pdb_file": Obj("sidecar.driver:GFile", closed=Const(0)),
+                   "pdb2pqr.cif:read_cif": TupleOf(_lst, OneOf(Items(), Items(Const("JUNK")))),
+                   "pdb2pqr.pdb:read_pdb": TupleOf(_lst, OneOf(Items(), Items(Const("JUNK"))))},
+            name=f"get_molecule.{_path}.{_n}", native=False,
+        )
